@@ -599,14 +599,24 @@ theorem waitBatches_ghost (timeout t0 : Nat) (bs : List (Nat × List Ext)) : ∀
         exact ⟨by rw [a, applyExts_stamp], by rw [b, applyExts_refreshed], c⟩
     · exact ⟨rfl, rfl, Nat.le_add_right _ _⟩
 
-theorem doWait_ghost (env : Env) (σ : PollState) (timeout : Nat) :
-    (doWait env σ timeout).stamp = σ.stamp ∧ (doWait env σ timeout).refreshed = σ.refreshed ∧
-    σ.clock ≤ (doWait env σ timeout).clock := by
-  unfold doWait waitEvent
+theorem waitEvent_ghost (env : Env) (σ : PollState) (timeout : Nat) :
+    (waitEvent env σ timeout).stamp = σ.stamp ∧ (waitEvent env σ timeout).refreshed = σ.refreshed ∧
+    σ.clock ≤ (waitEvent env σ timeout).clock := by
+  unfold waitEvent
   simp only
   split
   · exact ⟨rfl, rfl, Nat.le_refl _⟩
   · exact waitBatches_ghost timeout σ.clock _ σ
+
+theorem doWait_ghost (env : Env) (σ : PollState) (timeout : Nat) :
+    (doWait env σ timeout).stamp = σ.stamp ∧ (doWait env σ timeout).refreshed = σ.refreshed ∧
+    σ.clock ≤ (doWait env σ timeout).clock := by
+  obtain ⟨a, b, c⟩ := waitEvent_ghost env σ timeout
+  refine ⟨?_, ?_, by rw [doWait_clock]; exact c⟩
+  · show (applyExts (env.gap σ.nWait) (waitEvent env σ timeout)).stamp = σ.stamp
+    rw [applyExts_stamp, a]
+  · show (applyExts (env.gap σ.nWait) (waitEvent env σ timeout)).refreshed = σ.refreshed
+    rw [applyExts_refreshed, b]
 
 /-! ## the invariant of the refresh bound -/
 
@@ -738,12 +748,10 @@ theorem readAll_step (env : Env) (hq : Quiet env) (i p : Nat) (es : List Entry) 
 
 theorem waitEvent_step (env : Env) (hq : Quiet env) (i p : Nat) (σ : PollState) (timeout : Nat) :
     Step i p σ (waitEvent env σ timeout) := by
-  obtain ⟨a, b, c⟩ := doWait_ghost env σ timeout
+  obtain ⟨a, b, c⟩ := waitEvent_ghost env σ timeout
   refine ⟨?_, ?_, ?_, waitEvent_toPoll env σ timeout, c⟩
-  · show σ.refreshed i p ≤ (doWait env σ timeout).refreshed i p
-    rw [b]; exact Nat.le_refl _
+  · rw [b]; exact Nat.le_refl _
   · intro h
-    show (doWait env σ timeout).stamp i p ≤ (doWait env σ timeout).refreshed i p
     rw [a, b]; exact h
   · rw [waitEvent_quiet env hq]
 
